@@ -486,6 +486,9 @@ func ruleMigrateRound2(c *Ctx) {
 		ruleWireAliasThreaded(c, "C13.11")
 		ruleProviderFuncResolvedByUses(c, "C13.12")
 		ruleExprCopiesKeepOperands(c, "C13.13")
+		ruleChanDirMapping(c, "C13.14", migPkg)
+		ruleAsyncFlag(c, "C13.15")
+		ruleTypeIdentity(c, "C13.16", genPkg)
 	} else {
 		rulePackagelessRendererOnlyAsFallback(c, "C14.6")
 		ruleNoImportForSkippedFields(c, "C14.8", ruleImportSnapshotLast(c, "C14.7"))
@@ -494,6 +497,7 @@ func ruleMigrateRound2(c *Ctx) {
 		ruleBindConstructor(c, "C14.13")
 		ruleAliasOmission(c, "C14.14")
 		ruleSourceImportKeys(c, "C14.15")
+		ruleChanDirMapping(c, "C14.16", migPkg)
 		ruleLoopsMakeProgress(c, "C14.12", migPkg)
 		ruleInspectVisitsEverything(c, "C14.11")
 	}
@@ -858,9 +862,10 @@ func ruleFieldInclusionFunction(c *Ctx, rule string, fn *ssa.Function, target ss
 				continue
 			}
 			external := r.atoms[ext[0]].b == extTrue
-			want := (r.atoms[star].b || r.atoms[listed].b) && !(external && !r.atoms[exported].b)
+			isStar := r.atoms[star].b != strings.HasPrefix(star, "bin!=(") // the atom may be the negated comparison
+			want := (isStar || r.atoms[listed].b) && !(external && !r.atoms[exported].b)
 			if want != r.reached {
-				bad = fmt.Sprintf("star=%v listed=%v exported=%v other-package=%v: collected=%v", r.atoms[star].b, r.atoms[listed].b, r.atoms[exported].b, external, r.reached)
+				bad = fmt.Sprintf("star=%v listed=%v exported=%v other-package=%v: collected=%v", isStar, r.atoms[listed].b, r.atoms[exported].b, external, r.reached)
 				break
 			}
 		}
